@@ -209,6 +209,8 @@ func vh_nic_admission() {
 	// dropped to zero while the entry is still in the table
 	dying := na > 0 && vnBool("dying")
 	if dying {
+		// (RemoveAddress clears holdsInsertRef under the lock before it drops its reference)
+		nic.endpoints[NetworkEndpointID{addrs[0]}].holdsInsertRef = false
 		nic.endpoints[NetworkEndpointID{addrs[0]}].refs = 0
 	}
 	nic.promiscuous = vnBool("promiscuous")
